@@ -672,18 +672,24 @@ class OpaqueTypes(Plugin):
                 is_ref = q.endswith('&'); q = q.rstrip('&').strip()
                 pt = self.pair_type(unit, q)
                 if pt: break
-        if pt is None: return False
-        if is_ref and 'const' not in (lt.get('qualType') or ''): raise Unsupported('range-for over an opaque map by mutable reference (in %s)' % unit.cur)
+        scalar_first = None
+        if pt is None:
+            # a set-like opaque container of scalars / pointers: the element is handed out by the stub `<struct>__deref(c, it)`
+            txt, is_ref2 = unit.decl_text(loopvar, loopvar['name'])
+            if is_ref2 or txt.startswith('struct '): return False
+            scalar_first = txt
+        elif is_ref and 'const' not in (lt.get('qualType') or ''): raise Unsupported('range-for over an opaque map by mutable reference (in %s)' % unit.cur)
         p = '  ' * ind
         unit.loop_no += 1; ln = unit.loop_no
-        for f in (cn + '__begin', cn + '__next', 'v_map_it_first', 'v_map_it_second'): unit.count_call(f)
+        for f in ((cn + '__begin', cn + '__next', cn + '__deref') if scalar_first else (cn + '__begin', cn + '__next', 'v_map_it_first', 'v_map_it_second')): unit.count_call(f)
         unit.w(p + '{')
         unit.w(p + '  struct %s *__r%d = %s; long __it%d = %s__begin(__r%d);' % (cn, ln, unit.addr_of(rexpr), ln, cn, ln))
         unit.ghost('before_loop:%d' % ln, p + '  ')
         unit.w(p + '  for (; __it%d != 0; __it%d = %s__next(__r%d, __it%d))' % (ln, ln, cn, ln, ln))
         unit.loopc(ln, p + '  ')
         unit.local_names[loopvar['id']] = (loopvar['name'], False)
-        first = '%s %s; %s.first = *v_map_it_first(__it%d); %s.second = *v_map_it_second(__it%d);' % (pt, loopvar['name'], loopvar['name'], ln, loopvar['name'], ln)
+        if scalar_first: first = '%s = %s__deref(__r%d, __it%d);' % (scalar_first, cn, ln, ln)
+        else: first = '%s %s; %s.first = *v_map_it_first(__it%d); %s.second = *v_map_it_second(__it%d);' % (pt, loopvar['name'], loopvar['name'], ln, loopvar['name'], ln)
         unit.loop_body(body, ind + 1, ln, first_stmt=first)
         unit.ghost('after_loop:%d' % ln, p + '  ')
         unit.w(p + '}')
